@@ -14,7 +14,7 @@ func genC18(tier string, seed int64) (*Family, error) {
 	fam := &Family{
 		Prop: "C18", BothOrders: true, PkgPath: modPath + "/zz_verif/" + pkg, Files: map[string]string{},
 		Bounds: map[string]interface{}{"members_per_block": "0..3 (thorough 4)", "member_kinds": "local assignment, injected-field assignment, function, method, three-level call", "failing_subset": "symbolic (panicking injected function)"},
-		Cfg:    interp.Config{MaxSteps: 3_000_000, TrackMakeMaps: []string{"base.RuleEntity).Execute"}, TrackAllocs: []string{"*"}},
+		Cfg:    interp.Config{MaxSteps: 3_000_000, TrackMakeMaps: []string{"base.RuleEntity).Execute"}, TrackAllocs: []string{"*"}, TrackHostStructs: true},
 		Functions: []string{"base.ConcStatement).Evaluate", "base.Assignment).Evaluate", "base.FunctionCall).Evaluate", "base.MethodCall).Evaluate", "base.ThreeLevelCall).Evaluate",
 			"DataContext).ExecFunc", "DataContext).ExecMethod", "DataContext).ExecThreeLevel", "core.InvokeFunction"},
 	}
@@ -151,6 +151,7 @@ func %s() {
 	vnd.RequireJoined("ret")
 	vnd.NoRaces("map:")
 	vnd.NoRaces("var:")
+	vnd.NoRaces("host:")
 	vnd.StopIfViolated()
 	vnd.Assert(vnd.Iff(err != nil, anyFail), "the block fails iff a member fails")
 	vnd.Assert(vnd.Iff(vnd.Count("after") == 1, vnd.Not(anyFail)), "the next statement runs iff the block succeeded")
